@@ -5,7 +5,38 @@ use narsese::conversion::string::impl_enum::NarseseFormat as EnumFormat;
 use narsese::conversion::string::impl_lexical::format_instances as lf;
 use narsese::conversion::string::impl_lexical::NarseseFormat as LexFormat;
 
-pub const FORMAT_NAMES: [&str; 3] = ["ascii", "latex", "han"];
+/// 0-2: the shipped formats; 3-5: user DIALECTS derived from them through the public fields
+/// (enum: same keywords, another name-character predicate; lexical: one more copula)
+pub const FORMAT_NAMES: [&str; 6] = ["ascii", "latex", "han", "ascii-dialect", "latex-dialect", "han-dialect"];
+
+/// name characters of the enum dialects: like the stock predicate, but no `-`
+fn dialect_name_char(c: char) -> bool {
+    c.is_alphanumeric() || c == '_'
+}
+
+pub static ENUM_DIALECTS: [EnumFormat<&'static str>; 3] = [
+    EnumFormat { is_valid_atom_name: dialect_name_char, ..ef::FORMAT_ASCII },
+    EnumFormat { is_valid_atom_name: dialect_name_char, ..ef::FORMAT_LATEX },
+    EnumFormat { is_valid_atom_name: dialect_name_char, ..ef::FORMAT_HAN },
+];
+
+/// the enum format behind index f (stock 0-2, dialect 3-5)
+pub fn enum_format(f: usize) -> &'static EnumFormat<&'static str> {
+    if f < 3 {
+        &ENUM_FORMATS[f]
+    } else {
+        &ENUM_DIALECTS[(f - 3) % 3]
+    }
+}
+
+/// a lexical dialect: a fresh instance of the stock format with one more copula
+pub fn lex_dialect(f: usize) -> LexFormat {
+    let mut fmt = lex_fresh(f % 3);
+    let extra = ["isa", "\\sqsubseteq{}", "属于"][f % 3];
+    fmt.statement.copulas.insert(extra.to_string());
+    fmt
+}
+
 
 pub static ENUM_FORMATS: [EnumFormat<&'static str>; 3] =
     [ef::FORMAT_ASCII, ef::FORMAT_LATEX, ef::FORMAT_HAN];
